@@ -190,4 +190,22 @@ def c09_sandbox_fuzz(seed, n):
     return {"violates": False, "cases": cases}
 
 
-CALLS = {"c09_pure": c09_pure, "c09_eval": c09_eval, "c09_hostile": c09_hostile, "c09_dunder": c09_dunder, "c09_sandbox_fuzz": c09_sandbox_fuzz}
+
+def c09_entry_history(expr="r.s.upper()"):
+    from flow.record import RecordDescriptor
+    from flow.record.selector import Selector, make_selector
+
+    rec = RecordDescriptor("c09/e", [("string", "s"), ("string[]", "tags")])(s="abc", tags=["a"])
+    try:
+        make_selector(expr, force_compiled=True)
+    except Exception:
+        pass
+    s = make_selector(expr)
+    try:
+        out = ("val", repr(s.match(rec))[:60])
+    except Exception as e:
+        out = ("raise", type(e).__name__)
+    bad = type(s) is not Selector or out[0] != "raise" or list(rec.tags) != ["a"]
+    return {"violates": bad, "detail": f"make_selector({expr!r}) after a compiled selector of the same text: {type(s).__name__}, evaluation {out}, tags {list(rec.tags)}"}
+
+CALLS = {"c09_entry_history": c09_entry_history, "c09_pure": c09_pure, "c09_eval": c09_eval, "c09_hostile": c09_hostile, "c09_dunder": c09_dunder, "c09_sandbox_fuzz": c09_sandbox_fuzz}
